@@ -56,7 +56,9 @@ def main():
     sys.stdout.flush()
     if os.path.exists(WT):
         sh("git -C /repo worktree remove --force %s" % WT)
-    r = sh("bash %s/bin/mkwt.sh %s" % (V, WT))
+    # CONFIRM_PLAIN=1: a plain worktree with its own target dir built WITHOUT debug info (confirm_full.sh sets the profile): one cold build of the
+    # workspace's test binaries (~8 GB instead of ~30 GB, links several times faster), after which every seed only rebuilds what it touches
+    r = sh("git -C /repo worktree add -q %s HEAD && mkdir -p %s/_seed && echo ready" % (WT, WT)) if os.environ.get("CONFIRM_PLAIN") else sh("bash %s/bin/mkwt.sh %s" % (V, WT))
     if r.returncode:
         print(r.stderr[-400:])
         return
